@@ -188,6 +188,34 @@ def run(ctx):
                 'mapping', f'return Model({ps[1]}, mapping=self.map.name, '
                 f'**{b["_m_"]})', fn, 'mapping is not kept / interpolated '
                 'properties not used', ctx.where(mm, fn))
+    # the transpose that brings the gradient back belongs to the LINEAR
+    # volume average; the model itself is brought to the computational grid
+    # in log space for the linear mappings (table VA1.log) and by averaging
+    # the log values for the others: the Jacobian of that map is
+    # diag(sigma_c) P diag(1/sigma_m), not P.  Without those factors the
+    # gradient (and J v) is exact only for gridding='same' or homogeneous
+    # models
+    sm_ = ctx.repo.mod('emg3d/simulations.py')
+    g_ = [m for m in sm_.methods('Simulation', 'gradient')
+          if 'property' in au.decorator_names(m)][0]
+    adj = [c for c in au.calls(g_) if ast.unparse(c.func) ==
+           'maps._interp_volume_average_adj']
+    ctx.anchor(len(adj) == 1, '_interp_volume_average_adj call in gradient')
+    gm = sm_.method('Simulation', 'get_model')
+    fw_default = has('self.model.interpolate_to_grid(_g_)', gm)
+    scaled = any(isinstance(n, (ast.AugAssign, ast.BinOp)) and isinstance(
+        getattr(n, 'op', None), (ast.Mult, ast.Div)) and (
+            'property_' in ast.unparse(n) or 'backward' in ast.unparse(n))
+        and n.lineno < adj[0].lineno + 3 and n.lineno > adj[0].lineno - 12
+        for n in ast.walk(g_))
+    ctx.check('C15.VA5.adjoint', 'gradient: Jacobian of the forward model '
+              'interpolation', scaled or not fw_default,
+              'get_model averages the model with the default (log-space) '
+              'options, the gradient is brought back with the transpose of '
+              'the linear average and no conductivity-ratio factors: for a '
+              'computational grid different from the model grid the gradient '
+              'is not the derivative of the misfit (ratio sigma_m/sigma_c per '
+              'cell)', ctx.where(sm_, adj[0]))
     # VA2
     mp = ctx.repo.mod(MAPS)
     it = mp.func('interpolate')
